@@ -1349,4 +1349,46 @@ theorem or_keeps {tbl : ClassTable} {T : BoolTable} {o : Obj} {v : Ty} {cs : Lis
 theorem invert_and (cs : List AC) : (AC.and cs).invert = .or (AC.invertL cs) := by simp [AC.invert]
 theorem invert_or (cs : List AC) : (AC.or cs).invert = .and (AC.invertL cs) := by simp [AC.invert]
 
+/-! ### 10. tables without an always-true class above a falsy class -/
+
+theorem leakM_false_of_noLeak {tbl : ClassTable} {T : BoolTable} (h : noLeakTable tbl T = true)
+    (m : Ty) : leakM tbl T m = false := by
+  unfold leakM
+  split
+  · rename_i c _
+    by_cases hc : c < T.typeBoolL.length
+    · simp only [noLeakTable, allBelow_iff] at h
+      have := h c hc
+      cases hs : (T.typeBool c).safelyTrue <;> simp_all
+    · have : T.typeBoolL[c]? = none := List.getElem?_eq_none (Nat.le_of_not_lt hc)
+      simp [BoolTable.typeBool, List.getD_eq_getElem?_getD, this, Boolab.ofCode, Boolab.safelyTrue]
+  · rfl
+
+theorem verdictLeak_false_of_noLeak {tbl : ClassTable} {T : BoolTable} (h : noLeakTable tbl T = true)
+    (v : Ty) : verdictLeak tbl T v = false := by
+  unfold verdictLeak
+  rw [List.any_eq_false]
+  intro m _
+  simp [leakM_false_of_noLeak h m]
+
+theorem dK_alwaysTrue {tbl : ClassTable} {T : BoolTable} {k : K} {tst : Ty} {o : Obj} {m : Ty}
+    (h : "alwaysTrueWrong" ∈ dK tbl T k tst o m) :
+    (getBool tbl T (unann m)).safelyTrue = true ∧ truthy o = false := by
+  unfold dK at h
+  grind
+
+/-- on such tables no input falls in the class `alwaysTrueWrong` -/
+theorem alwaysTrueWrong_absent_core {tbl : ClassTable} {T : BoolTable} (hN : noLeakTable tbl T = true)
+    {v : Ty} {c : Cond} {pol : Bool} {o : Obj} (hv : valueOk v = true) :
+    "alwaysTrueWrong" ∉ d02 tbl T v c pol o := by
+  intro h
+  simp only [d02, List.mem_flatMap, List.mem_filter] at h
+  obtain ⟨m, ⟨hmem, hom⟩, hd⟩ := h
+  have hok : memberOk m = true := by
+    simp only [valueOk, List.all_eq_true] at hv; exact hv m hmem
+  obtain ⟨hb, ht⟩ := dK_alwaysTrue hd
+  rw [getBool_member tbl T hok] at hb
+  have := boolNoMvv_true_sound hb (leakM_false_of_noLeak hN m) hom
+  rw [ht] at this; cases this
+
 end Pya.C02
